@@ -133,3 +133,6 @@ pub fn sym_b() -> String { String::new() }
 #[derive(TS)] pub enum EK1 { A, B }
 #[derive(TS)] pub struct IM1<T> { #[ts(inline)] pub m: HashMap<EK1, T>, #[ts(inline)] pub v: Vec<HashMap<EK1, Inner<T>>> }
 #[derive(TS)] pub struct IM2<T> { pub m: HashMap<EK1, T>, pub o: Option<Vec<(EK1, Inner<T>)>> }
+#[derive(TS)] pub enum r#RawE<T> { A(T), r#B }
+#[derive(TS)] pub struct r#RawS<T> { pub r#a: T }
+#[derive(TS)] pub struct RawU<T> { pub e: r#RawE<T>, pub s: r#RawS<T> }
